@@ -201,7 +201,9 @@ func runCase(r *rand.Rand, g Graph, caseID string, enc *json.Encoder, b budget) 
 			}
 			b.calls--
 		case "abort":
-			e.Abort(a.t)
+			if e.Abort(a.t) {
+				return nil // the real Change.Abort panicked (AbortPanic recorded): the case ends here
+			}
 			b.abort--
 		case "tick":
 			e.Tick()
@@ -327,6 +329,10 @@ var directedCases = []directed{
 	{"core-abort-while-waiting", g3(false, chain, noB), "E C1fs F1ok E A E"},
 	// a failure elsewhere aborts a task that is asking for a restart: it stays Abort and is undone
 	{"core-abort-during-call", g3(false, indep, noB), "E F2err C1fs F1ok E"},
+	// known finding (C03, "Change.Abort panics: change unexpectedly became unready") reached on a forward DAG:
+	// 1 waits for a restart via TaskWaitForRestart (effective status Do), 2 waits for 1, the independent 3 is
+	// Done; Change.Abort puts 1 and 2 on Hold (change marked ready), then flips 3 Done -> Undo -> panic
+	{"core-abort-waitfor-known-panic", g3(false, [][]int{{}, {1}, {}}, noB), "E F3ok C1ws F1ok A"},
 	// crash between the handler's call and its return
 	{"core-crash-after-call", g3(false, chain, noB), "E C1fs S E R E"},
 	// reboot (power cut) while the restart is only scheduled: it is still requested when the change runs out of tasks
@@ -376,7 +382,9 @@ func runDirected(d directed, id string, enc *json.Encoder) error {
 			}
 		case 'A':
 			if !p.Rdy[0] {
-				e.Abort(1)
+				if e.Abort(1) {
+					return nil
+				}
 			}
 		case 'R':
 			if err := e.reboot(true); err != nil {
